@@ -177,6 +177,16 @@ def explore(ctx):
             ctx.nontriv(repr((sc['files'], sc['passes'], sc['rules'], sc['cfg'], sc['sched'])))
         each.append((driver.coq_scenario(sc, o.perm), o.out, sc))
         ctx.count('exit:' + ','.join(str(p['code']) for p in o.passes if p['code']) or 'exit:normal')
+    # the user presses keys while a pass runs ('s' skips the rest of the pass): another way out of run_pass (oracle only)
+    for it in range(12 if ctx.quick() else 120):
+        sc = gen(rnd, it)
+        sc['keys'] = rnd.choice(['s', 'ds', 'dds', 'xs', 's' * 5, 'd'])
+        o = driver.run_scenario(sc, ctx.tmp)
+        ctx.evaluations += 1
+        ctx.count('keys:' + sc['keys'])
+        if o.diverged or getattr(o, 'ctor_exc', None) is not None:
+            continue
+        oracle(ctx, sc, o)
     ctx.sample({'scenario': {k: each[0][2][k] for k in ('files', 'passes', 'rules', 'cfg', 'sched')}, 'impl_output': each[0][1][:40]})
     correspond(ctx, 'c08', each)
     pidq_direct(ctx, rnd)
@@ -191,7 +201,7 @@ def explore(ctx):
         ctx.broke('harness', 'error-exit-hangs scenario', 'the run did not end by an error')
     reals = REAL_SCENARIOS if not ctx.quick() else REAL_SCENARIOS[1:3]      # 'mixed' and 'all-timeout' (a round without a winner)
     for tag, sc in reals:
-        for fork in ((False, True, 'setsid') if tag != 'two-files' else (False,)):
+        for fork in ((False, True, 'setsid', 'term-proof') if tag != 'two-files' else (False,)):
             o = real_case(ctx, sc, tag, fork)
             ctx.sample({'real_pool': tag, 'fork_on_hang': fork, 'tests_started': len(o.log), 'alive_after': o.alive, 'tmp_after': o.tmp_listing})
 
